@@ -3,3 +3,4 @@ import MpirProofs.Lemmas.Kernels
 import MpirProofs.Props.C03
 import MpirProofs.Lemmas.Mpq
 import MpirProofs.Props.C12
+import MpirProofs.Props.C11Mpq
